@@ -6,9 +6,13 @@ import (
 	"strconv"
 )
 
-var gens = map[string]func(*Ctx){
-	"C01": genC01, "C02": genC02, "C03": genC03, "C04": genC04, "C05": genC05, "C06": genC06, "C07": genC07,
-	"C08": genC08, "C09": genC09, "C10": genC10, "C11": genC11, "C12": genC12, "C15": genC15,
+var gens map[string]func(*Ctx)
+
+func init() {
+	gens = map[string]func(*Ctx){
+		"C01": genC01, "C02": genC02, "C03": genC03, "C04": genC04, "C05": genC05, "C06": genC06, "C07": genC07,
+		"C08": genC08, "C09": genC09, "C10": genC10, "C11": genC11, "C12": genC12, "C15": genC15,
+	}
 }
 
 func newCtx(prop, tier string, seed uint64) *Ctx {
